@@ -8,8 +8,13 @@ if [ ! -d "$W" ]; then git -C /repo worktree add --detach "$W" HEAD >/dev/null 2
 cd "$W"; git checkout -q --detach "$(git -C /repo rev-parse HEAD)"; git checkout -q -- .; rm -f tests/seeded_demo.rs
 BASE=HEAD
 if ! git apply --check "$SRC/patch.diff" 2>/dev/null; then
-  BASE=588939d; git checkout -q --detach $BASE
-  git apply --check "$SRC/patch.diff" || { echo "PATCH-DOES-NOT-APPLY $SRC"; exit 1; }
+  OKB=""
+  for B in 67eb1fe 588939d; do
+    git checkout -q --detach $B
+    if git apply --check "$SRC/patch.diff" 2>/dev/null; then OKB=$B; break; fi
+  done
+  [ -n "$OKB" ] || { echo "PATCH-DOES-NOT-APPLY $SRC"; exit 1; }
+  BASE=$OKB
 fi
 export CARGO_TARGET_DIR=/tmp/seedcheck/target
 cp "$SRC/demo.rs" tests/seeded_demo.rs
